@@ -503,8 +503,13 @@ class CompositeFrontend(ConstrainedFrontend):
         if len(combined_noncommons):
             _, merged_noncommon = combined_noncommons[0].merge(combined_noncommons[1:], merge_conditions)
 
-            merged._owned_solvers.add(merged_noncommon)
-            merged._store_child(merged_noncommon)
+            if merged_noncommon.variables & set(merged._solvers):
+                # the merge conditions mention variables of a common solver: storing the merged solver under those
+                # names would silently drop the common solver (and its constraints), so join them properly
+                merged._add_dependent_constraints(merged_noncommon.variables, merged_noncommon.constraints)
+            else:
+                merged._owned_solvers.add(merged_noncommon)
+                merged._store_child(merged_noncommon)
 
         merged.constraints = list(itertools.chain.from_iterable(a.constraints for a in merged._solver_list))
         return True, merged
